@@ -535,7 +535,9 @@ def compile_half(ctx):
             h, frag = hist.get(name, ("", ""))
             ctx.violation("generated-module-does-not-compile", "%s [%s]: %s | definition: %s" % (name, frag, e, h),
                           "C13 compile %s | %s | %s" % (re.sub(r"\d+", "#", e)[:160], frag, h), {"module": name, "fragments": frag, "definition": h, "crate": d2})
-    ctx.subruns.append({"engine": "rustc (cargo check)", "modules": checked, "fragment_selections": ["default", "clone", "serde", "clone+serde"]})
+    ctx.subruns.append({"engine": "rustc (cargo check)", "modules": checked,
+                        "fragment_selections": ["default", "clone", "serde", "clone+serde", "none (GeneratorConfig::new with an empty list)",
+                                                "a user-supplied fragment alone", "default + a user-supplied fragment"]})
 
 
 def replay(path):
